@@ -71,9 +71,9 @@ def run(ctx):
                 out.append('C04-gstar-div-accepts-file')
             if side == 'glob' and multi and through_link(p):
                 out.append('C04-first-decomposition-only')
-            if (globcommon.group_first(pp) or globcommon.star_then_wild(pp)) and globcommon.hid(p):
-                out.append('C03-group-then-wild' if globcommon.group_first(pp) else 'C03-star-guard-inside-optional')
-            if globcommon.group_first(pp):
+            if (globcommon.group_then_wild(pp) or globcommon.star_then_wild(pp)) and globcommon.hid(p):
+                out.append('C03-group-then-wild' if globcommon.group_then_wild(pp) else 'C03-star-guard-inside-optional')
+            if globcommon.group_segment_can_be_empty(pp):
                 out.append('C02-group-segment-empty')
             if c['matchbase'] and globcommon.hid(p) and side == 'match':
                 out.append('C03-prefix-gstar-hidden')
@@ -201,6 +201,8 @@ def run(ctx):
     ctx.corr('REALPATH decision (_Match.match)', corr.corr_realpath(rng, [trees.DESIGNED[0], trees.DESIGNED[3], trees.DESIGNED[1], trees.DESIGNED[2]] +
                                                                    [trees.random_spec(rng, size=rng.randint(6, 12), cycles=False) for _ in range(2 if ctx.quick else 12)],
                                                                    150 if ctx.quick else 600))
+    nsp_ = _gcm.spelling_equiv(ctx, rng, 2 if ctx.quick else 8, 20 if ctx.quick else 80)
+    ctx.counted('walk and REALPATH matcher under respelled separator runs', nsp_, nsp_ // 2, [{'pattern': 'sub\\//**/f*', 'same_as': 'sub/**/f*'}])
     from wcmatch import glob as G2
     common.replay_witnesses(ctx, [])
     return ctx.finish(RULE)
